@@ -115,6 +115,7 @@ def main(argv=None):
     def _new_native(rr):
         return [f for f in rr["failures"] if not match_finding(findings, prop, rr["unit"], cls=f["cls"] or "?")]
     any_new_native = any(_new_native(rr) for rr in results)
+    attributed = []
     for r in results:
         exp_u = expected.get("units", {}).get(r["unit"], {})
         changed = exp_u.get("files") is not None and exp_u.get("files") != r["files"]
@@ -145,11 +146,10 @@ def main(argv=None):
                                                                      solver_output=o.get("detail"), goal=o.get("goal")))
                 known.append((kf, rp, o))
                 continue
-            if _new_native(r):
-                continue   # the unit already produced a replayed input
-            if any_new_native:
-                # a ring found a NEW failing input for this property (reported above with its replay);
-                # the open obligation is attributed to it
+            if _new_native(r) or any_new_native:
+                # a ring found a NEW failing input for this property (reported with its replay); the open obligation is
+                # attributed to it (listed, not a second verdict)
+                attributed.append((o["name"], r["unit"], o["status"]))
                 continue
             was_proved = o["name"] in exp_u.get("proved", [])
             rp = write_replay(prop, r["unit"], o["name"], dict(kind="obligation", status=o["status"],
@@ -193,6 +193,10 @@ def main(argv=None):
     if tool_err:
         return 3
     if violations:
+        for nm, un, stt in attributed[:40]:
+            print("  FAILED-OBLIGATION %s [%s] (%s) -- attributed to the replayed failing input(s) below" % (nm, un, stt))
+        if len(attributed) > 40:
+            print("  ... and %d more failed obligations" % (len(attributed) - 40))
         seen = set()
         for line, ob, msg in violations:
             if line in seen:
